@@ -23,8 +23,8 @@ def builds_needed(tier):
 
 
 def bounds(tier):
-    return {"oneshot_shapes": list(SHAPES), "incremental_aad_bytes": 51 if tier == "thorough" else 33,
-            "incremental_data_bytes": 195 if tier == "thorough" else 130, "fork_tree_depth": 6 if tier == "thorough" else 5}
+    return {"oneshot_shapes": list(SHAPES), "incremental_aad_bytes": 67 if tier == "thorough" else 33,
+            "incremental_data_bytes": 260 if tier == "thorough" else 130, "fork_tree_depth": 6 if tier == "thorough" else 5}
 
 
 def validate_models(tier):
@@ -43,8 +43,8 @@ class AeadSystem:
         self.name = "aead/%d/k%d/%s/%s" % (rounds, keylen, mode, direction)
         self.mode = mode              # "graph" (single object, byte bounds) or "fork" (tree with clone, small alphabet)
         self.direction = direction    # graph mode explores one direction per system
-        self.max_aad = 51 if tier == "thorough" else 33
-        self.max_data = 195 if tier == "thorough" else 130
+        self.max_aad = 67 if tier == "thorough" else 33
+        self.max_data = 260 if tier == "thorough" else 130
         n = 4096
         self.AAD = pat(2, 7, n)
         self.PT = pat(5, 1, n)
@@ -165,6 +165,10 @@ def shards(tier):
             sh.append(("shard_graph", (r, 32, d)))
     sh.append(("shard_graph", (20, 16, "E")))
     sh.append(("shard_graph", (20, 16, "D")))
+    if tier == "thorough":
+        for r in (8, 12):
+            sh.append(("shard_graph", (r, 16, "E")))
+            sh.append(("shard_graph", (r, 16, "D")))
     for r in (8, 12, 20):
         sh.append(("shard_fork", (r, 32)))
     return sh
